@@ -889,6 +889,15 @@ func specStr(s keySpec) string {
 
 func gen(r *hx.Rng, n int, tier string) []string {
 	var lines []string
+	// the minimum key and tag sizes of the subtle / internal constructors themselves (key objects
+	// have their own checks in front of them, so only these routes reach those comparisons)
+	for _, path := range []string{"S", "I"} {
+		for _, alg := range []string{"SHA256", "SHA512"} {
+			for _, kt := range [][2]int{{15, 16}, {16, 16}, {16, 9}, {16, 10}} {
+				lines = append(lines, fmt.Sprintf("C04|%s|%s|%s|%d|R|0|%s|=;f3;t1|", path, alg, hx.H(r.Bytes(kt[0])), kt[1], hx.H(r.Bytes(7))))
+			}
+		}
+	}
 	for c := 0; c < n; c++ {
 		x := r.Intn(100)
 		if r.Chance(5) { // a crypto/hmac object under an arbitrary Write/Sum/Reset sequence (hmacobj.go)
